@@ -5,7 +5,7 @@ package scentarget
 //   c<N>     answer with gRPC status code N (c0 = OK)
 //   gbig     a 1 MB reply
 //   gtoobig  a 6 MB reply (larger than the client's default 4 MB receive limit)
-//   gslow    answer after Hold (the gun's timeout is shorter)
+//   gslow    never answer: wait for the caller's deadline, then fail
 //   gkill    close the TCP connection the call arrived on
 
 import (
@@ -91,7 +91,10 @@ func (t *GrpcTarget) Hello(ctx context.Context, r *server.HelloRequest) (*server
 	case letter == "gtoobig":
 		return &server.HelloResponse{Hello: "Hello " + strings.Repeat("x", 6<<20)}, nil
 	case letter == "gslow":
-		time.Sleep(t.Hold) // deliberately deaf to ctx: the reply must come after the caller's deadline
+		// never a reply: wait until the caller has given up (its deadline travels with the call), then
+		// fail - whatever a starved client gets to see, it is not a success
+		<-ctx.Done()
+		return nil, status.Error(codes.DeadlineExceeded, "scripted gslow")
 	case letter == "gkill":
 		if p, ok := peer.FromContext(ctx); ok {
 			t.ln.kill(p.Addr.String())
